@@ -535,6 +535,8 @@ def apply_proj(t, p, body=None, st=()):
     if k == "downcast":
         if t[0] == "phi":
             return ("phi", tuple(apply_proj(x, p, body, st) for x in t[1]))
+        if t[0] == "agg" and t[1][0] == "adt" and t[1][2] == p["name"]:
+            return t  # (Variant{..} as Variant) -- the following field projection picks the operand
         return ("downcast", t, p["name"])
     if k == "index":
         idx = body.resolve_local(p["local"], st) if body is not None else ("local", p["local"])
